@@ -159,3 +159,136 @@ Proof.
 Qed.
 
 End Generic.
+
+(* ------------------------------------------------------------------ assemble_query_data, reference half *)
+Section Assemble.
+Variable A : Type.
+
+Lemma take_cols_lookup genes sel idx (row r : list A) :
+  idx_array genes sel = Some idx -> take_cols idx row = Some r ->
+  Forall2 (fun g v => lookup genes row g = Some v) sel r.
+Proof.
+  revert idx r. induction sel as [|g t IH]; intros idx r Hi Ht.
+  - injection Hi as <-. cbn in Ht. injection Ht as <-. constructor.
+  - rewrite idx_array_cons in Hi. destruct (gene_to_col genes g) as [j|] eqn:Ej; [|discriminate].
+    destruct (idx_array genes t) as [it|] eqn:Et; [|discriminate]. injection Hi as <-.
+    unfold take_cols in Ht. cbn in Ht. destruct (nth_error row j) as [v|] eqn:En; [|discriminate].
+    destruct (opt_all (map (nth_error row) it)) as [r'|] eqn:Er; [|discriminate]. injection Ht as <-.
+    constructor; [unfold lookup; rewrite Ej; exact En | apply (IH it); [reflexivity | exact Er]].
+Qed.
+
+Lemma lookup_rows_eq genes (row : list A) sel r r' :
+  Forall2 (fun g v => lookup genes row g = Some v) sel r ->
+  Forall2 (fun g v => lookup genes row g = Some v) sel r' -> r = r'.
+Proof. apply Forall2_eq_l. intros x y y' H1 H2. congruence. Qed.
+
+(* downsample_cells: the rows of the result are the rows of m NAMED by the selection *)
+Lemma downsample_cells_inv (m : rmat A) sel m1 : downsample_cells A m sel = ROk m1 ->
+  m_cells m1 = sel /\ m_genes m1 = m_genes m /\ m_norm m1 = m_norm m /\ NoDup sel /\
+  Forall2 (fun c row => mat_row A m c = Some row) sel (m_data m1).
+Proof.
+  unfold downsample_cells.
+  destruct (opt_all (map (gene_to_col (m_cells m)) sel)) as [idx|] eqn:Ei; [|discriminate].
+  destruct (opt_all (map (nth_error (m_data m)) idx)) as [d|] eqn:Ed; [|discriminate].
+  intros H. apply make_rmat_inv in H. destruct H as (-> & _ & _ & ND). cbn.
+  repeat (split; [reflexivity || assumption|]).
+  apply opt_all_Forall2 in Ei. apply opt_all_Forall2 in Ed.
+  clear ND. revert idx d Ei Ed. induction sel as [|c t IH]; intros idx d Ei Ed.
+  - inversion Ei; subst. inversion Ed; subst. constructor.
+  - inversion Ei as [|? i ? idx' Hc Hi]; subst. inversion Ed as [|? row ? d' Hr Hd]; subst.
+    constructor; [unfold mat_row; rewrite Hc; exact Hr | apply (IH idx'); assumption].
+Qed.
+
+Lemma downsample_genes_ip_inv (m : rmat A) sel m2 : downsample_genes_ip A m sel = ROk m2 ->
+  m_cells m2 = m_cells m /\ m_genes m2 = sel /\ m_norm m2 = m_norm m /\ NoDup sel /\
+  Forall2 (fun row r => Forall2 (fun g v => lookup (m_genes m) row g = Some v) sel r) (m_data m) (m_data m2).
+Proof.
+  unfold downsample_genes_ip, check_downsample.
+  destruct (znodup_b sel) eqn:En; cbn [negb]; [|discriminate].
+  destruct (idx_array (m_genes m) sel) as [idx|] eqn:Ei; cbn [rbind]; [|discriminate].
+  destruct (opt_all (map (take_cols idx) (m_data m))) as [d|] eqn:Ed; [|discriminate].
+  intros H. injection H as <-. cbn. repeat (split; [reflexivity|]). split; [apply znodup_b_spec; exact En|].
+  apply opt_all_Forall2 in Ed. revert Ed. generalize (m_data m). intros rows Ed.
+  induction Ed as [|row r rows d Hr _ IH]; constructor; [|exact IH].
+  apply (take_cols_lookup _ _ idx); assumption.
+Qed.
+
+Lemma Forall2_compose {X Y W} (P : X -> Y -> Prop) (Q : Y -> W -> Prop) l1 l2 l3 :
+  Forall2 P l1 l2 -> Forall2 Q l2 l3 -> Forall2 (fun x w => exists y, P x y /\ Q y w) l1 l3.
+Proof.
+  intros H. revert l3. induction H as [|x y l1 l2 Hxy _ IH]; intros l3 H'; inversion H'; subst; constructor; eauto.
+Qed.
+
+(* the assignments leaf -> child *)
+Lemma leaf_assignments_in t cl kids asg : leaf_assignments t cl kids = Some asg ->
+  forall l c, In (l, c) asg <-> In c kids /\ In l (leaves_of t cl c).
+Proof.
+  unfold leaf_assignments. destruct (forallb _ kids); [|discriminate]. intros H. injection H as <-.
+  intros l c. rewrite in_flat_map. split.
+  - intros (c' & Hc' & Hin). apply in_map_iff in Hin. destruct Hin as (l' & E & Hl'). injection E as -> ->. tauto.
+  - intros (Hc & Hl). exists c. split; [exact Hc|]. apply in_map_iff. exists l. tauto.
+Qed.
+
+Lemma type_of_leaf_in asg l c : type_of_leaf asg l = Some c -> In (l, c) asg.
+Proof. unfold type_of_leaf. intros H. apply zassoc_in in H. apply in_rev. exact H. Qed.
+
+Lemma sorted_keys_spec asg :
+  Sorted Z.le (sorted_keys asg) /\ NoDup (sorted_keys asg) /\
+  forall l, In l (sorted_keys asg) <-> exists c, In (l, c) asg.
+Proof.
+  unfold sorted_keys. split; [apply zsort_sorted|]. split; [apply zsort_nodup, NoDup_nodup|].
+  intros l. rewrite zsort_in, nodup_In, in_map_iff. split.
+  - intros ([l' c] & E & Hin). cbn in E. subst. eauto.
+  - intros (c & Hin). exists (l, c). tauto.
+Qed.
+
+(* everything a successful call establishes *)
+Lemma assemble_inv t groups refg qg qgenes qnorm (m : rmat A) parent a :
+  assemble_reference A t groups refg qg qgenes qnorm m parent = ROk a ->
+  exists kids asg ri qi,
+    immediate_children t parent = ROk kids /\
+    leaf_assignments t (child_level_of parent) kids = Some asg /\
+    tget parent groups = Some (ri, qi) /\
+    names_at qg qi = Some (a_qgenes a) /\ names_at refg ri = Some (m_genes (a_ref a)) /\
+    a_qgenes a = m_genes (a_ref a) /\ NoDup (m_genes (a_ref a)) /\ incl (a_qgenes a) qgenes /\
+    m_cells (a_ref a) = sorted_keys asg /\
+    Forall2 (fun l c => type_of_leaf asg l = Some c) (m_cells (a_ref a)) (a_types a) /\
+    m_norm (a_ref a) = Log2CPM /\ m_norm m = Log2CPM /\ qnorm = Log2CPM /\
+    Forall2 (fun l r => exists row, mat_row A m l = Some row /\
+                          Forall2 (fun g v => lookup (m_genes m) row g = Some v) (m_genes (a_ref a)) r)
+            (m_cells (a_ref a)) (m_data (a_ref a)).
+Proof.
+  unfold assemble_reference.
+  destruct (immediate_children t parent) as [kids|] eqn:Ek; cbn [rbind]; [|discriminate].
+  destruct (leaf_assignments t (child_level_of parent) kids) as [asg|] eqn:Ea; [|discriminate].
+  destruct (tget parent groups) as [[ri qi]|] eqn:Eg; [|discriminate].
+  destruct (names_at qg qi) as [qmark|] eqn:Eq; [|discriminate].
+  destruct (check_downsample qgenes qmark) as [qidx|] eqn:Ec; cbn [rbind]; [|discriminate].
+  destruct (names_at refg ri) as [rmark|] eqn:Er; [|discriminate].
+  destruct (downsample_cells A m (sorted_keys asg)) as [m1|] eqn:E1; cbn [rbind]; [|discriminate].
+  destruct (downsample_genes_ip A m1 rmark) as [m2|] eqn:E2; cbn [rbind]; [|discriminate].
+  destruct (opt_all (map (type_of_leaf asg) (m_cells m2))) as [types|] eqn:Et; [|discriminate].
+  destruct (zlist_eq qmark (m_genes m2)) eqn:Ez; cbn [negb]; [|discriminate].
+  destruct (is_log2 qnorm) eqn:Eqn; cbn [negb]; [|discriminate].
+  destruct (is_log2 (m_norm m2)) eqn:Ern; cbn [negb]; [|discriminate].
+  intros H. injection H as <-. cbn [a_ref a_types a_qgenes].
+  apply zlist_eq_spec in Ez.
+  destruct (downsample_cells_inv m _ m1 E1) as (C1 & G1 & N1 & _ & D1).
+  destruct (downsample_genes_ip_inv m1 _ m2 E2) as (C2 & G2 & N2 & ND2 & D2).
+  exists kids, asg, ri, qi. split; [reflexivity|]. split; [exact Ea|]. split; [first [reflexivity | exact Eg]|].
+  split; [exact Eq|]. split; [rewrite G2; exact Er|]. split; [exact Ez|].
+  split; [rewrite G2; exact ND2|]. split.
+  - unfold check_downsample in Ec. destruct (znodup_b qmark); cbn [negb] in Ec; [|discriminate].
+    destruct (idx_array qgenes qmark) eqn:Ei; [|discriminate].
+    intros g Hg. destruct (in_dec Z.eq_dec g qgenes) as [Hi|Hn]; [exact Hi|].
+    exfalso. rewrite idx_array_unknown in Ei; [discriminate|]. intros Hincl. apply Hn, Hincl, Hg.
+  - split; [rewrite C2, C1; reflexivity|]. split; [apply opt_all_Forall2; exact Et|].
+    assert (Hn2 : m_norm m2 = Log2CPM) by (destruct (m_norm m2); [discriminate | reflexivity]).
+    split; [exact Hn2|]. split; [rewrite <- N1, <- N2; exact Hn2|].
+    split; [destruct qnorm; [discriminate | reflexivity]|].
+    rewrite C2, C1, G2. rewrite G1 in D2.
+    eapply Forall2_weaken; [|apply (Forall2_compose _ _ _ _ _ D1 D2)].
+    intros l r (row & H1 & H2). exists row. tauto.
+Qed.
+
+End Assemble.
